@@ -5,7 +5,18 @@
     and names the given liquid class, arm and grid/site (site emitted zero-based).  Calls that cannot be
     expressed as such a command are rejected, and evo_wash emits its parameters in the documented order
     after range-checking each of them.
-    Statements only; proofs live in Proofs/EvoCmdProofs.v.
+    Statements only; proofs live in Proofs/EvoCmdProofs.v and Proofs/TextExtraProofs.v.
+
+    The chain proved is  emitted TEXT -> [parse_cmd] (independent textual parser, Spec/CmdParse.v: cuts at
+    the first "(", splits at ",", at the double quote and at ")", reads numbers with [parse_decN]; it never
+    calls a printer) -> structured command [cmd] -> [decode_effect] (EVOware's pairing rule) = the volume
+    change applied by the Labware tracking: C13_parse, C13_agree_text, C13_agree_aspirate_text,
+    C13_agree_dispense_text, C13_wash_parse (review item M4).  The older statements via the printer
+    ([text = render_cmd c], C13_render, C13_agree, ...) are kept; [render_cmd] and [parse_cmd] are inverse
+    on well-formed commands (C13_parse_render).
+    Hypothesis of the text-level theorems: the liquid class contains neither a comma nor a double quote
+    ([tx_lc_clean]).  The library and the model emit the liquid class unescaped and only refuse ";", so
+    without this hypothesis the text does not determine the command (C13_example_lc_unparsable).
 
     Definitions used.
     Spec/CmdDecode.v (independent of the emitter): the structured command [cmd]
@@ -26,9 +37,17 @@
       [asc_nat]             strictly ascending list of naturals (bool); [tipval b] = 2^b as an integer;
       [real_index g (r, c)] flat index of the real well (troughs: one real row);
       [bad_volume x]        None / not a number / NaN / +-inf / negative;
-      [wash_vol_text v s]   [v] is an int 0..100 printed as is, or a float 0..100 printed to one decimal. *)
+      [wash_vol_text v s]   [v] is an int 0..100 printed as is, or a float 0..100 printed to one decimal.
+    Spec/CmdParse.v: [parse_cmd : string -> option cmd], [parse_wash : string -> option wcmd] (record of the
+      sixteen wash parameters, volumes in tenths of a millilitre).
+    Proofs/TextExtraProofs.v:
+      [tx_lc_clean t]       [t] is not a str, or a str without "," and without the double quote;
+      [tx_cmd_valid c]      kind is Aspirate or Dispense; mask, grid, site, arm are not negative; liquid class
+                            and selection string contain no "," and no double quote; eight slots, none negative;
+      [tx_wash_vol_val v t] [t] tenths stand for the wash volume [v]: 10 * z for an int z, [round1c q] for a
+                            float q. *)
 From Robo Require Import Prelude Str Wells Utils Labware Tips Records Partition Params Worklist EvoCmd
-  Invariants SelDecode CmdDecode LabwareProofs EvoCmdProofs.
+  Invariants SelDecode CmdDecode CmdParse LabwareProofs EvoCmdProofs TextExtraProofs.
 
 (* ------------------------------------------------------------------ C13_reject *)
 
@@ -286,6 +305,124 @@ Theorem C13_agree_dispense : forall s k a label comps s' L,
 Proof. exact evo_dispense_ledger. Qed.
 Print Assumptions C13_agree_dispense.
 
+(* ------------------------------------------------------------------ C13 on the text (M4) *)
+
+(** the textual parser inverts the printer on well-formed commands ... *)
+Theorem C13_parse_render : forall c, tx_cmd_valid c -> parse_cmd (render_cmd c) = Some c.
+Proof. exact tx_parse_render_cmd. Qed.
+Print Assumptions C13_parse_render.
+
+(** ... so the printer is injective on them *)
+Theorem C13_render_injective : forall c c', tx_cmd_valid c -> tx_cmd_valid c' ->
+  render_cmd c = render_cmd c' -> c = c'.
+Proof. exact tx_render_cmd_injective. Qed.
+Print Assumptions C13_render_injective.
+
+(** the text emitted for an accepted call parses to the structured command of the call *)
+Theorem C13_parse : forall kind R C a m text,
+  kind = "Aspirate"%string \/ kind = "Dispense"%string -> tx_lc_clean (c_liquid_class a) ->
+  evo_command kind R C a m = Ok text ->
+  exists c, parse_cmd text = Some c /\ evo_command_struct kind R C a m = Ok c.
+Proof. exact tx_evo_command_parse. Qed.
+Print Assumptions C13_parse.
+
+(** the text determines the structured command *)
+Theorem C13_text_determines : forall kind R C a m kind' R' C' a' m' text,
+  kind = "Aspirate"%string \/ kind = "Dispense"%string ->
+  kind' = "Aspirate"%string \/ kind' = "Dispense"%string ->
+  tx_lc_clean (c_liquid_class a) -> tx_lc_clean (c_liquid_class a') ->
+  evo_command kind R C a m = Ok text -> evo_command kind' R' C' a' m' = Ok text ->
+  evo_command_struct kind R C a m = evo_command_struct kind' R' C' a' m'.
+Proof. exact tx_text_determines. Qed.
+Print Assumptions C13_text_determines.
+
+(** C13_fields on the text: the parsed command names the kind, liquid class, arm, grid, site - 1 and the
+    tip mask of the call ([tip_mask] of C10 on the tip list); slot i is used exactly when tip i is given *)
+Theorem C13_parse_fields : forall kind R C a m text,
+  kind = "Aspirate"%string \/ kind = "Dispense"%string -> tx_lc_clean (c_liquid_class a) ->
+  evo_command kind R C a m = Ok text ->
+  exists c bs,
+    parse_cmd text = Some c /\
+    elems_bits (c_tips a) = Some bs /\ asc_nat bs = true /\
+    cm_kind c = kind /\
+    c_liquid_class a = PStr (cm_lc c) /\
+    cm_arm c = c_arm a /\
+    c_grid a = PInt (cm_grid c) /\
+    c_site a = PInt (cm_site c + 1) /\
+    cm_mask c = Z.of_N (mask_or bs) /\
+    tip_mask (TipMany (c_tips a)) = Ok (Some (mask_or bs)) /\
+    (0 <= cm_mask c < 256)%Z /\
+    length (cm_slots c) = 8 /\
+    (forall i, i < 8 -> ((exists h, nth_error (cm_slots c) i = Some (Some h)) <-> In i bs)) /\
+    (forall i, i < 8 -> ((exists h, nth_error (cm_slots c) i = Some (Some h)) <->
+                         Z.testbit (cm_mask c) (Z.of_nat i) = true)).
+Proof. exact tx_parse_fields. Qed.
+Print Assumptions C13_parse_fields.
+
+(** C13_agree on the text: text -> parsed command -> decoded effect = the i-th well changed by the i-th
+    validated volume to two decimals; these volumes are the ones handed to the tracking *)
+Theorem C13_agree_text : forall kind n_rows n_cols a m text,
+  kind = "Aspirate"%string \/ kind = "Dispense"%string -> tx_lc_clean (c_liquid_class a) ->
+  n_rows <= 26 -> n_cols < 256 ->
+  evo_command kind n_rows n_cols a m = Ok text ->
+  exists c qs rcs,
+    parse_cmd text = Some c /\
+    map (make_well_index n_rows n_cols) (flattenF (c_wells a)) = map Some rcs /\
+    length qs = length rcs /\
+    track_vols a = map XQ qs /\
+    decode_effect n_rows n_cols c = Some (effect_of rcs qs).
+Proof. exact tx_evo_command_agree. Qed.
+Print Assumptions C13_agree_text.
+
+(** end to end on the worklist, from the text of the appended record: it parses to a command that decodes to
+    wells [rcs] with volumes [qs] (two decimals), and the tracked labware lost exactly [qs] on those wells *)
+Theorem C13_agree_aspirate_text : forall s k a label s' L,
+  tx_lc_clean (c_liquid_class a) ->
+  evo_aspirate s k a label = (s', None) -> nth_error (st_lw s) k = Some L -> wf_shape L ->
+  g_cols (lw_geom L) < 256 ->
+  exists L' w text c rcs qs,
+    nth_error (st_lw s') k = Some L' /\ st_wl s' = emit w [RCmd text] /\
+    parse_cmd text = Some c /\
+    decode_effect (n_row_ids (lw_geom L)) (g_cols (lw_geom L)) c = Some (effect_of rcs qs) /\
+    length qs = length rcs /\
+    length (lw_vols L') = length (lw_vols L) /\
+    forall j, (nth j (lw_vols L') 0 ==
+               nth j (lw_vols L) 0 + delta (neg_events (zip (map (real_index (lw_geom L)) rcs) qs)) j)%Q.
+Proof. exact tx_evo_aspirate_ledger. Qed.
+Print Assumptions C13_agree_aspirate_text.
+
+Theorem C13_agree_dispense_text : forall s k a label comps s' L,
+  tx_lc_clean (c_liquid_class a) ->
+  evo_dispense s k a label comps = (s', None) -> nth_error (st_lw s) k = Some L -> wf_shape L ->
+  g_cols (lw_geom L) < 256 ->
+  exists L' w text c rcs qs,
+    nth_error (st_lw s') k = Some L' /\ st_wl s' = emit w [RCmd text] /\
+    parse_cmd text = Some c /\
+    decode_effect (n_row_ids (lw_geom L)) (g_cols (lw_geom L)) c = Some (effect_of rcs qs) /\
+    length qs = length rcs /\
+    length (lw_vols L') = length (lw_vols L) /\
+    forall j, (nth j (lw_vols L') 0 ==
+               nth j (lw_vols L) 0 + delta (zip (map (real_index (lw_geom L)) rcs) qs) j)%Q.
+Proof. exact tx_evo_dispense_ledger. Qed.
+Print Assumptions C13_agree_dispense_text.
+
+(** the wash command text parses, in the documented parameter order, to the arguments given (sites
+    zero-based, volumes in tenths of a millilitre); no hypothesis - the wash command has no free text *)
+Theorem C13_wash_parse : forall a text, evo_wash_cmd a = Ok text ->
+  exists wc bs,
+    parse_wash text = Some wc /\
+    elems_bits (wa_tips a) = Some bs /\ wc_mask wc = Z.of_N (mask_or bs) /\
+    wa_waste_grid a = PInt (wc_waste_grid wc) /\ wa_waste_site a = PInt (wc_waste_site wc + 1) /\
+    wa_cleaner_grid a = PInt (wc_cleaner_grid wc) /\ wa_cleaner_site a = PInt (wc_cleaner_site wc + 1) /\
+    tx_wash_vol_val (wa_waste_vol a) (wc_waste_vol wc) /\ wa_waste_delay a = PInt (wc_waste_delay wc) /\
+    tx_wash_vol_val (wa_cleaner_vol a) (wc_cleaner_vol wc) /\ wa_cleaner_delay a = PInt (wc_cleaner_delay wc) /\
+    wa_airgap a = PInt (wc_airgap wc) /\ wa_airgap_speed a = PInt (wc_airgap_speed wc) /\
+    wa_retract_speed a = PInt (wc_retract_speed wc) /\
+    wa_fastwash a = PInt (wc_fastwash wc) /\ wa_low_volume a = PInt (wc_low_volume wc) /\
+    wc_arm wc = wa_arm a.
+Proof. exact tx_wash_parse. Qed.
+Print Assumptions C13_wash_parse.
+
 (* ------------------------------------------------------------------ non-vacuity *)
 
 #[local] Open Scope string_scope.
@@ -308,6 +445,19 @@ Example C13_example_struct :
         cm_slots := [None; Some 1050%Z; None; None; Some 2500%Z; None; Some 346%Z; None];
         cm_grid := 10; cm_site := 1; cm_sel := "0C0800D10000000000"; cm_arm := 0 |}.
 Proof. vm_compute. reflexivity. Qed.
+
+(** the text, parsed: the same structured command; the hypotheses of C13_parse hold *)
+Example C13_example_parse :
+  parse_cmd "B;Aspirate(82,""Water"",0,""10.5"",0,0,""25.0"",0,""3.46"",0,0,0,0,0,10,1,1,""0C0800D10000000000"",0,0);"
+  = Some {| cm_kind := "Aspirate"; cm_mask := 82; cm_lc := "Water";
+            cm_slots := [None; Some 1050%Z; None; None; Some 2500%Z; None; Some 346%Z; None];
+            cm_grid := 10; cm_site := 1; cm_sel := "0C0800D10000000000"; cm_arm := 0 |} /\
+  tx_lc_clean (c_liquid_class ex_args) /\
+  parse_cmd "B;Aspirate(82,""Water"",0,""10.5"",0,0,""25.0"",0,""3.46"",0,0,0,0,0,10,1,1,""0C0800D10000000000"",0,0)" = None /\
+  parse_cmd "B;Mix(82,""Water"",0,""10.5"",0,0,""25.0"",0,""3.46"",0,0,0,0,0,10,1,1,""0C0800D10000000000"",0,0);" = None /\
+  parse_cmd "B;Aspirate(82,""Water"",0,""10.5"",0,0,""25.0"",0,""3.46"",0,0,0,0,10,1,1,""0C0800D10000000000"",0,0);" = None /\
+  parse_cmd "B;Aspirate(82,""Water"",0,""10.555"",0,0,""25.0"",0,""3.46"",0,0,0,0,0,10,1,1,""0C0800D10000000000"",0,0);" = None.
+Proof. vm_compute. repeat split; reflexivity. Qed.
 
 (** decoded: A03 = (0, 2) by tip 2 with 10.50, C03 = (2, 2) by tip 5 with 25.00, F03 = (5, 2) by tip 7
     with 3.46; mask and slots are consistent *)
@@ -405,6 +555,17 @@ Example C13_example_reject :
   run (with_wells ["A3"; "C03"; "F03"] ex_args) = Err EReject.
 Proof. vm_compute. repeat split; reflexivity. Qed.
 
+(** a liquid class with a comma or a double quote is accepted (only ";" is refused) and emitted unescaped;
+    the resulting text is not a well-formed command: the hypothesis [tx_lc_clean] is needed *)
+Example C13_example_lc_unparsable :
+  let run lc := evo_command "Aspirate" 8 12 (with_place (PInt 10) (PInt 2) 0 (PStr lc) ex_args) 950 in
+  run "Wa,ter" =
+    Ok "B;Aspirate(82,""Wa,ter"",0,""10.5"",0,0,""25.0"",0,""3.46"",0,0,0,0,0,10,1,1,""0C0800D10000000000"",0,0);" /\
+  match run "Wa,ter" with Ok t => parse_cmd t = None | Err _ => False end /\
+  match run "Wa""ter" with Ok t => parse_cmd t = None | Err _ => False end /\
+  match run "W(a)ter" with Ok t => exists c, parse_cmd t = Some c /\ cm_lc c = "W(a)ter" | Err _ => False end.
+Proof. vm_compute. repeat split; try reflexivity. eexists. split; reflexivity. Qed.
+
 (** a command refused after the tracking: no command record, only the label comment *)
 Example C13_example_reject_worklist :
   let r := evo_aspirate ex_state 0 (with_tips [TInt 2; TInt 2; TInt 7] ex_args) (Some "take") in
@@ -423,6 +584,16 @@ Definition ex_wash : washargs :=
 Example C13_example_wash :
   evo_wash_cmd ex_wash = Ok "B;Wash(133,30,1,30,0,""3.1"",500,""4"",1000,10,70,30,1,0,1000,0);" /\
   elems_bits (wa_tips ex_wash) = Some [0; 2; 2; 7] /\ mask_or [0; 2; 2; 7] = 133%N.
+Proof. vm_compute. repeat split; reflexivity. Qed.
+
+(** the wash text, parsed *)
+Example C13_example_wash_parse :
+  parse_wash "B;Wash(133,30,1,30,0,""3.1"",500,""4"",1000,10,70,30,1,0,1000,0);" =
+  Some {| wc_mask := 133; wc_waste_grid := 30; wc_waste_site := 1; wc_cleaner_grid := 30; wc_cleaner_site := 0;
+          wc_waste_vol := 31; wc_waste_delay := 500; wc_cleaner_vol := 40; wc_cleaner_delay := 1000;
+          wc_airgap := 10; wc_airgap_speed := 70; wc_retract_speed := 30; wc_fastwash := 1;
+          wc_low_volume := 0; wc_arm := 0 |} /\
+  tx_wash_vol_val (wa_waste_vol ex_wash) 31 /\ tx_wash_vol_val (wa_cleaner_vol ex_wash) 40.
 Proof. vm_compute. repeat split; reflexivity. Qed.
 
 Example C13_example_wash_reject :
